@@ -9,6 +9,7 @@ package main
 
 import (
 	"fmt"
+	"math/big"
 	"time"
 
 	"verifharness/internal/groups"
@@ -44,7 +45,38 @@ func runC05(c *kc.Ctx) {
 			rng := c.Rng.Fork("c05/" + g.Name)
 			src := pointSource(g, rng)
 			cp := groupCaps(g)
-			for i := 0; i < nProg; i++ {
+			// exhaustive sweep of "derive X from Y, then overwrite X in place": Y must not change
+			// (catches storage shared between a result and its operand, whatever the random programs hit)
+			progs := deriveOverwritePrograms(rng, f.q, src, cp.base)
+			for i := 0; i < nProg+len(progs); i++ {
+				if i >= nProg {
+					p := progs[i-nProg]
+					done := c.Watch(90*time.Second, g.Name, g.Name+" program "+p.String(), map[string]string{"group": g.Name, "program": p.String()}, "proof")
+					afinal, asteps, retMis := runAliased(g, p)
+					ffinal, fsteps := runProg(g, p, false, true)
+					done()
+					c.Eval(1)
+					c.Program(1)
+					c.CountKind("derive-overwrite:" + g.Name)
+					c.Nontrivial(g.Name + "|" + p.String())
+					k := 0
+					for k < len(asteps) && k < len(fsteps) && asteps[k] == fsteps[k] {
+						k++
+					}
+					if (afinal != ffinal || k < len(asteps) || k < len(fsteps)) && len(retMis) == 0 {
+						st := "?"
+						if k < len(p.stmts) {
+							st = p.stmts[k].String()
+						}
+						c.Violation("aliasing:"+g.Name+":"+stmtOp(st), fmt.Sprintf("%s: in-place execution differs from execution on fresh copies at step %d `%s`", g.Name, k, st),
+							map[string]any{"group": g.Name, "program": p.String(), "step": k, "statement": st, "aliased": afinal, "fresh": ffinal})
+					}
+					for _, m := range retMis {
+						c.Violation("receiver-not-set:"+g.Name+":"+stmtOp(m), fmt.Sprintf("%s: after `%s` the receiver differs from the returned value", g.Name, m),
+							map[string]string{"group": g.Name, "program": p.String(), "statement": m})
+					}
+					continue
+				}
 				dgen := c.Watch(90*time.Second, g.Name+":pick/embed/hash", g.Name+": generating input points through Pick/Embed/Hash", map[string]string{"group": g.Name, "seed": fmt.Sprint(c.Seed), "program_index": fmt.Sprint(i)}, "proof")
 				p := genProgX(rng.Fork(fmt.Sprint(i)), f.q, plen, src, cp.base, true, true)
 				dgen()
@@ -149,3 +181,78 @@ func modelText(p prog) string {
 }
 
 func init() { register("C05", "proof", runC05) }
+
+// deriveOverwritePrograms enumerates every (derive, overwrite) pair on points and on scalars.
+func deriveOverwritePrograms(rng *kc.Rng, q *big.Int, src func(i int) []byte, withBase bool) []prog {
+	var out []prog
+	lit := func(i int) stmt { return stmt{dst: fmt.Sprintf("p%d", i), op: "dec", lit: kc.HexB(src(i))} }
+	k1, k2 := kc.HexN(rng.BigBelow(q)), kc.HexN(rng.BigBelow(q))
+	derive := [][]stmt{
+		{{dst: "p1", op: "neg", args: []string{"p0"}}},
+		{{dst: "p1", op: "set", args: []string{"p0"}}},
+		{{dst: "p1", op: "clone", args: []string{"p0"}}},
+		{{dst: "p1", op: "add", args: []string{"p0", "p2"}}, {dst: "p1", op: "sub", args: []string{"p1", "p2"}}},
+		{{dst: "p1", op: "mul", args: []string{"s0", "p0"}}},
+		{{dst: "p1", op: "null"}, {dst: "p1", op: "add", args: []string{"p1", "p0"}}},
+	}
+	overwrite := [][]stmt{
+		{{dst: "p1", op: "set", args: []string{"p2"}}},
+		{{dst: "p1", op: "null"}},
+		{{dst: "p1", op: "neg", args: []string{"p1"}}},
+		{{dst: "p1", op: "add", args: []string{"p1", "p2"}}},
+		{{dst: "p1", op: "mul", args: []string{"s1", "p1"}}},
+		{{dst: "p1", op: "dec", lit: kc.HexB(src(3))}},
+	}
+	if withBase {
+		overwrite = append(overwrite, []stmt{{dst: "p1", op: "base"}})
+	}
+	for _, d := range derive {
+		for _, o := range overwrite {
+			var p prog
+			p.stmts = append(p.stmts, stmt{dst: "s0", op: "const", lit: k1}, stmt{dst: "s1", op: "const", lit: k2}, lit(0), lit(1), lit(2))
+			p.stmts = append(p.stmts, d...)
+			p.stmts = append(p.stmts, o...)
+			// and the mirror image: overwrite the source, the derived value must not change
+			out = append(out, p)
+			var m prog
+			m.stmts = append(m.stmts, stmt{dst: "s0", op: "const", lit: k1}, stmt{dst: "s1", op: "const", lit: k2}, lit(0), lit(1), lit(2))
+			m.stmts = append(m.stmts, d...)
+			for _, st := range o {
+				st2 := st
+				st2.dst = "p0"
+				st2.args = append([]string{}, st.args...)
+				for i := range st2.args {
+					if st2.args[i] == "p1" {
+						st2.args[i] = "p0"
+					}
+				}
+				m.stmts = append(m.stmts, st2)
+			}
+			out = append(out, m)
+		}
+	}
+	// scalars
+	sder := [][]stmt{
+		{{dst: "s3", op: "neg", args: []string{"s2"}}},
+		{{dst: "s3", op: "set", args: []string{"s2"}}},
+		{{dst: "s3", op: "add", args: []string{"s2", "s0"}}},
+		{{dst: "s3", op: "mul", args: []string{"s2", "s1"}}},
+	}
+	sover := [][]stmt{
+		{{dst: "s3", op: "set", args: []string{"s0"}}},
+		{{dst: "s3", op: "neg", args: []string{"s3"}}},
+		{{dst: "s3", op: "add", args: []string{"s3", "s1"}}},
+		{{dst: "s3", op: "mul", args: []string{"s3", "s3"}}},
+		{{dst: "s3", op: "const", lit: k2}},
+	}
+	for _, d := range sder {
+		for _, o := range sover {
+			var p prog
+			p.stmts = append(p.stmts, stmt{dst: "s0", op: "const", lit: k1}, stmt{dst: "s1", op: "const", lit: k2}, stmt{dst: "s2", op: "const", lit: kc.HexN(rng.BigBelow(q))})
+			p.stmts = append(p.stmts, d...)
+			p.stmts = append(p.stmts, o...)
+			out = append(out, p)
+		}
+	}
+	return out
+}
